@@ -419,10 +419,16 @@ fn working_set_family(rep: &Report) {
 pub fn run(opts: &Opts) -> i32 {
     let rep = Report::new("C04", "fault_enumeration", opts);
     rep.set("exhaustive", true);
-    rep.set("rule", "start states = every distinct state of the C01 space (2 and 3 replicas, also with a 1 MB operation that makes the sync send several versions) up to a depth in which some replica has something to sync; for every such replica ONE sync with a fault at every StorageTxn call index x {error, process stop = future dropped and storage re-read} and at every Server request x {error before effect, effect then lost reply, stop before, stop after effect}; on the in-memory storage and, for a subset, on a real SqliteStorage that is closed and re-opened after the fault; oracle: replica invariant right after the fault for every replica, then quiescence succeeds and the converged tasks equal those of a fault-free run (any first-sync order); distinct_nontrivial = runs in which the server accepted a version although the sync did not complete");
     let q = opts.tier == Tier::Quick;
+    rep.set("rule", "start states = every distinct state of the C01 space (2 and 3 replicas, also with a 1 MB operation that makes the sync send several versions) up to a depth in which some replica has something to sync; for every such replica ONE sync with a fault at every StorageTxn call index x {error, process stop = future dropped and storage re-read} and at every Server request x {error before effect, effect then lost reply, stop before, stop after effect}; on the in-memory storage and, for a subset, on a real SqliteStorage that is closed and re-opened after the fault; oracle: replica invariant right after the fault for every replica, then quiescence succeeds and the converged tasks equal those of a fault-free run (any first-sync order); plus (a) a replica whose sync pulls pending tasks and a completion, interrupted at every storage call / server request and then simply repeated: tasks and working set must equal those of the uninterrupted sync (the working-set rebuild is the sync's second transaction); (b) a child process running the whole sync of a SQLite replica against the on-disk local server, SIGKILLed at write syscalls, then re-opened and continued; distinct_nontrivial = runs in which the server accepted a version although the sync did not complete");
     let three = vec![("p".to_string(), Some("a".to_string()), 1), ("p".to_string(), Some("b".to_string()), 2), ("q".to_string(), Some("a".to_string()), 1)];
     working_set_family(&rep);
+    // a real process kill: a child runs the whole sync of a SQLite replica against the on-disk
+    // local server and is SIGKILLed at its write syscalls (machinery shared with C11)
+    rep.assume("sync-kill part: process-kill semantics (the kernel keeps written pages), kill instants = entries of the write-class syscalls of the child");
+    for sit in [super::synckill::Situation::PullThenPush, super::synckill::Situation::PushOnly] {
+        super::synckill::kill_sweep(&rep, "C04", sit, if q { 6 } else { 10_000 });
+    }
     run_space(&rep, "R2-small", start_states(2, if q { 5 } else { 6 }, small_updates(), 0, false), false);
     run_space(&rep, "R2-populated", start_states(2, if q { 4 } else { 5 }, three.clone(), 0, true), false);
     run_space(&rep, "R2-big", start_states(2, if q { 4 } else { 5 }, vec![("p".into(), Some("a".into()), 1), ("p".into(), Some("b".into()), 2)], 1, false), false);
